@@ -502,7 +502,7 @@ def long_rings(draw):
     refresh their bookkeeping) or a little beyond it"""
     d = D(draw)
     w = d.choice([16, 32, 64])
-    P = d.choice([255, 256, 1000, 1024, 4096])
+    P = d.choice([255, 256, 1000, 1024, 4096] if w > 16 else [255, 256, 1000])   # 2^16 bits hold 2048 ops only
     stride = 1 << 18
     mult = d.choice([1, 1, 2])
     I = (mult * stride) // (P + 1) + 1
@@ -514,7 +514,7 @@ def long_rings(draw):
         I -= 1
         base = machine.run(w, long_ring_segments(w, P, 0), [0] * I, budget=4 * stride)
     k = target - base.ops
-    if k < 0 or k > 4000:
+    if k < 0 or k > 4000 or (w == 16 and 2 * (2 + k + P) + 12 > (1 << 16) // w):
         k = 0
     return {'kind': 'longring', 'w': w, 'segments': long_ring_segments(w, P, k), 'input_bits': [0] * I, 'version': d.int(0, 3),
             'layout': 'longring', 'P': P, 'k': k}
